@@ -79,6 +79,9 @@ func Open(kind, scratch string) (*Opened, error) {
 	case kind == "memory-paged":
 		m := ebu.NewMemoryStore()
 		return &Opened{Kind: kind, Store: &Paged{Inner: m}, Sub: m, Close: func() {}}, nil
+	case kind == "memory-capped":
+		m := ebu.NewMemoryStore()
+		return &Opened{Kind: kind, Store: &Capped{Inner: m, Cap: 2}, Sub: m, Close: func() {}}, nil
 	case strings.HasPrefix(kind, "sqlite"):
 		var opts []sqlite.Option
 		if i := strings.Index(kind, "batch"); i >= 0 {
@@ -151,6 +154,23 @@ func (p *Paged) Read(ctx context.Context, from ebu.Offset, limit int) ([]*ebu.St
 	return p.Inner.Read(ctx, from, limit)
 }
 
+// Capped is a paged store whose server caps every page at Cap events (it returns the correct next
+// offset, so a chain of reads still reproduces the log).
+type Capped struct {
+	Inner ebu.EventStore
+	Cap   int
+}
+
+func (c *Capped) Append(ctx context.Context, e *ebu.Event) (ebu.Offset, error) {
+	return c.Inner.Append(ctx, e)
+}
+func (c *Capped) Read(ctx context.Context, from ebu.Offset, limit int) ([]*ebu.StoredEvent, ebu.Offset, error) {
+	if limit <= 0 || limit > c.Cap {
+		limit = c.Cap
+	}
+	return c.Inner.Read(ctx, from, limit)
+}
+
 // ---------------------------------------------------------------------------------------------
 // fault injection
 
@@ -158,11 +178,23 @@ func (p *Paged) Read(ctx context.Context, from ebu.Offset, limit int) ([]*ebu.St
 type Action int
 
 const (
-	None  Action = iota
-	Fail         // return an error instead of performing the operation
-	Crash        // perform the operation, then the process "dies": every later operation is a no-op error
-	Gate         // park before the operation until released
+	None    Action = iota
+	Fail           // return an error instead of performing the operation
+	Crash          // perform the operation, then the process "dies": every later operation is a no-op error
+	Gate           // park before the operation until released
+	LostAck        // perform the operation, then report an error (the acknowledgement is lost)
+	FailCtx        // like Fail, but the error wraps context.DeadlineExceeded (a store-internal deadline, not the caller's context)
 )
+
+// ErrStoreDeadline is the error of FailCtx.
+var ErrStoreDeadline = fmt.Errorf("verif: store-internal read deadline: %w", context.DeadlineExceeded)
+
+func injected(a Action) error {
+	if a == FailCtx {
+		return ErrStoreDeadline
+	}
+	return ErrInjected
+}
 
 // OpRec is one logged store operation.
 type OpRec struct {
@@ -286,6 +318,10 @@ func (b *base) Append(ctx context.Context, e *ebu.Event) (ebu.Offset, error) {
 		return "", ErrInjected
 	}
 	off, err := b.inner.Append(ctx, e)
+	if a == LostAck && err == nil {
+		b.f.end(idx, string(off), ErrInjected, a)
+		return "", ErrInjected
+	}
 	b.f.end(idx, string(off), err, a)
 	return off, err
 }
@@ -295,9 +331,9 @@ func (b *base) Read(ctx context.Context, from ebu.Offset, limit int) ([]*ebu.Sto
 	if dead {
 		return nil, from, ErrDead
 	}
-	if a == Fail {
-		b.f.end(idx, "", ErrInjected, a)
-		return nil, from, ErrInjected
+	if a == Fail || a == FailCtx {
+		b.f.end(idx, "", injected(a), a)
+		return nil, from, injected(a)
 	}
 	evs, next, err := b.inner.Read(ctx, from, limit)
 	b.f.end(idx, fmt.Sprintf("%d->%s", len(evs), next), err, a)
@@ -314,9 +350,9 @@ func (s streamer) ReadStream(ctx context.Context, from ebu.Offset) iter.Seq2[*eb
 			yield(nil, ErrDead)
 			return
 		}
-		if a == Fail {
-			s.f.end(idx, "", ErrInjected, a)
-			yield(nil, ErrInjected)
+		if a == Fail || a == FailCtx {
+			s.f.end(idx, "", injected(a), a)
+			yield(nil, injected(a))
 			return
 		}
 		s.f.end(idx, "", nil, a)
@@ -330,9 +366,9 @@ func (s streamer) ReadStream(ctx context.Context, from ebu.Offset) iter.Seq2[*eb
 				yield(nil, ErrDead)
 				return
 			}
-			if a == Fail {
-				s.f.end(idx, "", ErrInjected, a)
-				yield(nil, ErrInjected)
+			if a == Fail || a == FailCtx {
+				s.f.end(idx, "", injected(a), a)
+				yield(nil, injected(a))
 				return
 			}
 			s.f.end(idx, "", err, a)
